@@ -356,7 +356,7 @@ def run(ctx) -> None:
     enumerate_lengths(ctx)
     ctx.notes["service_instances"] = len(S.service_instances())
     shards = ctx.n(8, 16)
-    parallel(ctx, _shard_both, [(ctx.n(700, 20000), ctx.n(500, 16000))] * shards)
+    parallel(ctx, _shard_both, [(ctx.n(700, 12000), ctx.n(500, 10000))] * shards)
 
 
 def replay(ctx, case) -> None:
